@@ -347,27 +347,46 @@ func c05Oracle(rs *runState, res *c05Result, missing []int64) {
 			}
 		}
 	}
-	// per incarnation: start clock and which (collection, channel) already had a performed checkpoint then
-	startClock, readyClock := map[int]int64{}, map[int]int64{}
-	hadCheckpointAtStart := map[string]bool{}
+	// (re)start points of the readers: a restarted child or a resumed task. For each: the clock from which the new
+	// readers are up, and which (collection, channel) had a performed checkpoint when the old ones went away.
+	type restartPoint struct {
+		from, ready int64
+		have        map[string]bool
+	}
+	var points []*restartPoint
 	{
 		have := map[string]bool{}
+		snap := func() map[string]bool {
+			m := map[string]bool{}
+			for k := range have {
+				m[k] = true
+			}
+			return m
+		}
 		for _, e := range evs {
 			if e.Kind == "store" && e.Store.Kind == "task_position" && e.Store.Op == "put" && e.Store.Coll > 0 && e.Store.Phase == "after" && e.Store.Err == "" {
 				for ch := range e.Store.Positions {
 					have[fmt.Sprintf("%d/%s", e.Store.Coll, ch)] = true
 				}
 			}
-			if e.Kind == "child-start" {
-				readyClock[e.Inc] = e.Clock
-			}
-			if e.Kind == "child-exit" { // what the NEXT incarnation finds (its own start-up writes come later)
-				startClock[e.Inc+1] = e.Clock
-				for k := range have {
-					hadCheckpointAtStart[fmt.Sprintf("%d/%s", e.Inc+1, k)] = true
+			switch {
+			case e.Kind == "child-exit", e.Kind == "api" && e.API == "resume call":
+				points = append(points, &restartPoint{from: e.Clock, have: snap()})
+			case e.Kind == "child-start" && e.Inc > 1, e.Kind == "api" && e.API == "resume reply":
+				if n := len(points); n > 0 && points[n-1].ready == 0 {
+					points[n-1].ready = e.Clock
 				}
 			}
 		}
+	}
+	lastPoint := func(t int64) *restartPoint {
+		var r *restartPoint
+		for _, p := range points {
+			if p.from <= t && p.ready != 0 {
+				r = p
+			}
+		}
+		return r
 	}
 	type pkey struct {
 		task string
@@ -421,8 +440,9 @@ func c05Oracle(rs *runState, res *c05Result, missing []int64) {
 				if ok {
 					when = fmt.Sprintf("first acked at clock %d", ac)
 				}
-				if a1 && e.Inc > 1 && !hadCheckpointAtStart[fmt.Sprintf("%d/%d/%s", e.Inc, e.Store.Coll, ch)] && d.SentAt < readyClock[e.Inc] {
-					add("C05/crash-before-first-checkpoint-of-new-collection-resumes-from-latest", fmt.Sprintf("incarnation %d found no checkpoint for collection %d channel %s (the previous incarnation died before it had written one): the stream was subscribed at the latest message and message uid=%d (source id %d, %s), written before the restarted reader was up, is %s while the checkpoint moved on to id %d at clock %d", e.Inc, e.Store.Coll, ch, d.UID, d.MsgID, d.Kind, when, pe.MsgID, e.Clock))
+				rp := lastPoint(e.Clock)
+				if a1 && rp != nil && !rp.have[fmt.Sprintf("%d/%s", e.Store.Coll, ch)] && d.SentAt < rp.ready {
+					add("C05/crash-before-first-checkpoint-of-new-collection-resumes-from-latest", fmt.Sprintf("the readers restarted at clock %d (incarnation %d) found no checkpoint for collection %d channel %s (the previous ones went away before one was written): the stream was subscribed at the latest message and message uid=%d (source id %d, %s), written before the new reader was up, is %s while the checkpoint moved on to id %d at clock %d", rp.ready, e.Inc, e.Store.Coll, ch, d.UID, d.MsgID, d.Kind, when, pe.MsgID, e.Clock))
 				} else if a1 {
 					add("C05/checkpoint-ahead-of-acknowledged-writes", fmt.Sprintf("checkpoint Put announced at clock %d (incarnation %d) for collection %d channel %s position id %d lies beyond message uid=%d (source id %d, %s), %s", e.Clock, e.Inc, e.Store.Coll, ch, pe.MsgID, d.UID, d.MsgID, d.Kind, when))
 				} else {
